@@ -408,6 +408,17 @@ func Fail(t TB, test string, c any, format string, args ...any) {
 	t.Fatalf("%s: %s", test, msg)
 }
 
+// Journal records the case about to be run, so that if the code under test
+// kills or hangs the test process the driver can attribute it to this case.
+func Journal(test string, c any) {
+	rec := failRecord{Property: property, Test: test, Message: "the test process died or hung while running this case", Case: c}
+	b, err := json.Marshal(rec)
+	if err != nil {
+		return
+	}
+	_ = os.WriteFile(filepath.Join(outDir, "current.json"), b, 0o644)
+}
+
 // RegisterReplay registers the replay entry of a test: it decodes the case and
 // judges it with the same oracle as the generated search.
 func RegisterReplay(test string, f func(t TB, raw json.RawMessage)) {
